@@ -86,13 +86,13 @@ fn run_g<C: Codec>(c: &Case, trace: bool) -> RunOut {
                     let clause = msg.split(':').next().unwrap_or("invariant").replace(' ', "-");
                     out.violate(
                         format!("C12:{f}:{ty}:{name}:{clause}"),
-                        format!("packet returned by front-end {name} breaks a type invariant: {msg}\n  input: {:?}\n  packet: {pkt:?}", Bs(stream[..stream.len().min(200)].to_vec())),
+                        format!("packet returned by front-end {name} breaks a type invariant: {msg}\n  input: {:?}\n  packet: {}", Bs(stream[..stream.len().min(200)].to_vec()), safe_debug(pkt)),
                     );
                 }
             }
             Err(m) => out.violate(
                 format!("C12:{f}:{ty}:{name}:accessor-panic"),
-                format!("an accessor of a decoded packet panicked: {m}\n  input: {:?}\n  packet: {pkt:?}", Bs(stream[..stream.len().min(200)].to_vec())),
+                format!("an accessor of a decoded packet panicked: {m}\n  input: {:?}\n  packet: {}", Bs(stream[..stream.len().min(200)].to_vec()), safe_debug(pkt)),
             ),
         }
     }
